@@ -312,6 +312,41 @@ def coq_case(kind, sc, entries, obs):
     return f"({kind}, {ent},\n {before},\n {o})"
 
 
+ABS_TY = ("Z * list (bytes * bytes * Z * Z * list Z) * list (bytes * (Z * bytes * Z) * Z) * list (bytes * option ((Z * bytes * Z) * Z))")
+
+
+def abs_case(kind, sc, entries, obs):
+    """Coq term for Harness.chk_abs: the same case as coq_case with contents abstracted -- original of <name> -> identifier "O:<name>",
+    (a prefix of) the expected output -> "the first n bytes of the output" (tag 1), anything else -> "?" (matches no model state).
+    The comparison of the real bytes with the original / the expected output is done HERE; the model then decides whether the
+    directory is a state of the op sequence."""
+    orig = {os.path.normpath(f[0]): (f[1], f[2]) for f in sc.files}
+    new_of, lens_of, tmp_owner = {}, {}, {}
+    plan = []
+    for n, tname, mode, code, chunks in entries:
+        new_of[n] = b"".join(chunks) if code in (OC["StreamFails"], OC["WrapCloseFails"]) else sc.transformed.get(n, b"".join(chunks))
+        tmp_owner[tname] = n
+        plan.append("(%s, %s, %d, %d, [%s])" % (cb(n.encode()), cb(tname.encode()), mode, code, "; ".join(str(len(c)) for c in chunks)))
+
+    def a_orig(n):
+        c = orig[n][0]
+        if n in new_of and new_of[n] == c:
+            return "(1, [], %d)" % len(c)                 # output identical to the input: one identifier for both
+        return "(0, %s, 0)" % cb(("O:" + n).encode())
+
+    def a_cell(p, content):
+        if p in orig and content == orig[p][0]:
+            return a_orig(p)
+        if p in new_of and content == sc.transformed.get(p, new_of[p]):
+            return "(1, [], %d)" % len(content)
+        if p in tmp_owner and new_of[tmp_owner[p]].startswith(content):
+            return "(1, [], %d)" % len(content)
+        return '(0, (B "?"), 0)'
+    before = "[" + "; ".join("(%s, %s, %d)" % (cb(os.path.normpath(n).encode()), a_orig(os.path.normpath(n)), m) for n, c, m in sc.files) + "]"
+    o = "[" + "; ".join("(%s, %s)" % (cb(n.encode()), "None" if v is None else "Some (%s, %d)" % (a_cell(n, v[0]), v[1])) for n, v in sorted(obs.items())) + "]"
+    return "(%d, [%s],\n %s,\n %s)" % (kind, "; ".join(plan), before, o)
+
+
 def oracle(ctx, sc, res, killed, how):
     """the property on the snapshot. returns list of (class, message)"""
     snap = snap_files(res)
@@ -376,6 +411,14 @@ def make_scenarios(ctx):
     S.append(Scenario("success:own-header-head-NR", ["--icsv", "--ocsv", "head", "-n", "1", "then", "put", "$nr=NR; $fnr=FNR; $f=FILENAME"], three(), ok3))
     S.append(Scenario("success:begin-end-per-file", ["--icsv", "--ocsv", "put", "-q", "begin{@n=0} @n += 1; end{emit @n}"], three(), ok3))
     S.append(Scenario("success:sort", ["--icsv", "--opprint", "sort", "-nr", "b"], three(), ok3))
+    # --seed: the command line is re-parsed for every file, so the generator is re-seeded per file: each file must equal the run of the
+    # same command (same --seed) on that file ALONE -- random-consuming functions and verbs; two byte-identical inputs included
+    same = csv_file(rng, 5, "s")
+    sd = str(rng.randint(1, 10 ** 6))
+    S.append(Scenario("success:seed-urandint", ["--seed", sd, "--icsv", "--ocsv", "put", "$r = urandint(1, 1000000); $u = urand32()"],
+                      [("a.csv", same, 0o640), ("b.csv", same, 0o600), ("c.csv", csv_file(rng, 4, "t"), 0o644)], ok3))
+    S.append(Scenario("success:seed-shuffle-bootstrap", ["--seed", sd, "--icsv", "--ocsv", "shuffle", "then", "bootstrap", "then", "sample", "-k", "3"],
+                      [("a.csv", csv_file(rng, 7, "u"), 0o640), ("b.csv", same, 0o600), ("c.csv", same, 0o644)], ok3))
     plain = csv_file(rng, 4, "z")
     S.append(Scenario("success:gz-suffix", ["--icsv", "--ocsv", "put", "$d=1"], [("g.csv.gz", gzip.compress(plain, mtime=0), 0o644), ("h.csv", plain, 0o604)],
                       ["Succeeds", "Succeeds"]))
@@ -460,8 +503,9 @@ def run(ctx):
                                "POSIX rename is atomic with respect to process crashes (assumed; power-loss durability is out of scope: mlr does not fsync)"]
     ctx.assumptions = ["os.CreateTemp returns a name that does not exist", "a crash is a process kill; the kernel completes or does not start each system call"]
     forbidden_gate(ctx, ["Base", "C19"])
-    ok, why = check_props(ctx, "C19/Props.v", ["C19/Harness.vo", "C19/Proofs.vo", "C19/ProofsRun.vo"])
+    ok, why = check_props(ctx, "C19/Props.v", ["C19/Harness.vo", "C19/Proofs.vo", "C19/ProofsRun.vo", "C19/Refine.vo"])
     terms, meta, tterms, tmeta = [], [], [], []
+    aterms, ameta = [], []
     S = make_scenarios(ctx)
     nviol = 0
 
@@ -480,7 +524,9 @@ def run(ctx):
             terms.append(coq_case(0 if killed else 1, sc, entries, obs))
             meta.append((sc, res, killed, how, inject, bool(bad)))
         else:
-            ctx.dist("snapshot-oracle-only(large binary)")
+            aterms.append(abs_case(0 if killed else 1, sc, entries, obs))     # contents by identifier / length (Harness.chk_abs)
+            ameta.append((sc, res, killed, how, inject, bool(bad)))
+            ctx.dist("snapshot-abstract-contents(large binary)")
         tterm, ev = trace_case(sc, res, killed)
         if tterm:
             tterms.append(tterm)
@@ -562,12 +608,24 @@ def run(ctx):
         big = [("big.csv", csv_file(rng, 1500 if ctx.tier == "quick" else 20000, "w"), 0o640)]
         scb = Scenario("success:multi-chunk", ["--icsv", "--ojson", "cat"], big, ["Succeeds"])
         expected_transforms(ctx, scb)
-        for p in R.enumerate_crash_points(ctx, scb.files, scb.args, max_points=8 if ctx.tier == "quick" else 80, rng=rng, workers=JOBS, syscalls=["write", "renameat", "close"]):
+        # kill points: the write / rename / close calls of a clean run; the killed runs are traced in full (stat, create, ...) for the acceptor
+        clean_b = R.trace_run(ctx, scb.files, scb.args, syscalls=["write", "renameat", "close"])
+        for p in R.enumerate_crash_points(ctx, scb.files, scb.args, max_points=8 if ctx.tier == "quick" else 80, rng=rng, workers=JOBS, clean=clean_b):
             res = p["result"]
             ctx.count(("big", p["syscall"], p["n"]))
             ctx.dist("kill:multi-chunk")
             if res.get("injected"):
                 bad = oracle(ctx, scb, res, True, "")
+                # the model on abstract contents (many write calls): the snapshot must be a state of the op sequence, the trace a prefix of it
+                how_b = "ptrace: SIGKILL at entry of %s #%d" % (p["syscall"], p["n"])
+                entries_b, obs_b = build_plan(scb, snap_files(res), True)
+                aterms.append(abs_case(0, scb, entries_b, obs_b))
+                ameta.append((scb, res, True, how_b, ("kill", p["syscall"], p["n"]), bool(bad)))
+                tterm_b, ev_b = trace_case(scb, res, True)
+                if tterm_b:
+                    tterms.append(tterm_b)
+                    tmeta.append((scb, res, True, how_b, ev_b, bool(bad)))
+                    ctx.dist("trace:killed(multi-chunk)")
                 t = [b for n, (b, m) in snap_files(res).items() if is_temp(n)]
                 if t and not scb.transformed["big.csv"].startswith(t[0]):
                     bad.append(("inplace-temp-not-prefix", "temp file content is not a prefix of the output"))
@@ -586,9 +644,16 @@ def run(ctx):
         bad_t, err_t = coq_eval_mismatches(ctx, "C19trace", "C19.Model C19.Harness", "Z * list (bytes * bytes * Z * Z * list Z) * list tev", "chk_trace",
                                            tterms, shard=len(tterms) // JOBS + 1)
         bad_p, err_p = coq_eval_mismatches(ctx, "C19pre", "C19.Model C19.Harness", "Z * Z * list bytes * Z", "chk_pre", pre_terms)
+        bad_a, err_a = coq_eval_mismatches(ctx, "C19abs", "C19.Model C19.Harness", ABS_TY, "chk_abs", aterms, shard=len(aterms) // JOBS + 1) if aterms else ([], "")
+    ctx.cov["correspondence_abstract_contents"] = {"cases": len(aterms), "mismatches": len(bad_a)}
     ctx.cov["correspondence"] = {"cases": len(terms), "mismatches": len(bad), "trace_cases": len(tterms), "trace_mismatches": len(bad_t),
                                  "pre_pass_cases": len(pre_terms), "pre_pass_mismatches": len(bad_p)}
-    err = err + err_t + err_p
+    err = err + err_t + err_p + err_a
+    for i in [j for j in bad_a if j >= 0][:4]:
+        sc, res, killed, how, inject, had = ameta[i]
+        if not had:
+            ctx.violation({"broken": "correspondence C19.Harness.chk_abs (directory snapshot, contents by identifier/length, is not a model state)", "scenario": sc.name,
+                           "how": how, "status": res["status"], "observed": {n: [len(b), oct(m)] for n, (b, m) in snap_files(res).items()}}, found_input=False)
     for i in bad_p[:4]:
         sc, res, refused = pre_meta[i]
         ctx.violation({"broken": "correspondence C19.Harness.chk_pre (Model.inplace_ops' pre-pass and mlr disagree on whether the command is refused as not updatable in place)",
